@@ -38,6 +38,10 @@ def finish(x, asserts, info=None, kf=None, inv=True, mem=True):
         for k, v in im.items():
             asserts["MEM." + k] = v
         w.obs.append(("mem", {k: (v if isinstance(v, bool) else SBool(v)) for k, v in im.items()}))
+    if w.usage is not None and "C15.records" not in asserts:
+        # nothing was retired by this operation: no usage record may appear
+        up, uq = x.pre_usage, w.usage.snapshot()
+        asserts["C15.records"] = all(len(uq.tables[t]) == len(up.tables[t]) for t in ("nameplates", "mailboxes"))
     asserts["C09.clean_at_exit"] = not (w.db.dirty or w.db.in_tx or
                                         (w.usage is not None and (w.usage.dirty or w.usage.in_tx)))
     asserts["C09.clean_at_send"] = all(not r["dirty"] for c in w.conns for r in step_frames(c))
